@@ -270,8 +270,8 @@ theorem declActs_noDangling (d : Decl) (v : String) : ∀ a ∈ declActs d v, a.
     · cases ha
   · trivial
 
-theorem attrActs_noDangling (isXsi : String → Bool) (xsi ds : List Decl) (nv : String × String) :
-    ∀ a ∈ attrActs isXsi xsi ds nv, a.noDangling := by
+theorem attrActs_noDangling (isXsi : String → Bool) (xsi ds : List Decl) (inj : Bool) (nv : String × String) :
+    ∀ a ∈ attrActs isXsi xsi ds inj nv, a.noDangling := by
   intro a ha
   unfold attrActs at ha
   split at ha
@@ -285,7 +285,9 @@ theorem attrActs_noDangling (isXsi : String → Bool) (xsi ds : List Decl) (nv :
     · split at ha
       · simp at ha; subst ha; trivial
       · cases ha
-    · exact declActs_noDangling _ _ a ha
+    · split at ha
+      · cases ha
+      · exact declActs_noDangling _ _ a ha
 
 theorem textActs_noDangling (ud : Bool) (td : TextDecl) (t : String) :
     ∀ a ∈ textActs ud td t, a.noDangling := by
@@ -311,7 +313,7 @@ theorem docActs_noDangling (eff : Bool → List Decl → Attrs → Attrs) (isXsi
   rcases ha with ((⟨d, _, rfl⟩ | rfl | ⟨nv, _, ha⟩) | ha)
   · trivial
   · trivial
-  · exact attrActs_noDangling _ _ _ _ a ha
+  · exact attrActs_noDangling _ _ _ _ _ a ha
   · split at ha
     · exact textActs_noDangling _ _ _ a ha
     · cases ha
